@@ -682,3 +682,76 @@ Section Restate.
     V *m diag_mx (dk_mx F N k)^T *m V^T = Vk *m Vk^T.
   Proof. move=> Vk; split; [exact: pi_topk|exact: topk_projector]. Qed.
 End Restate.
+
+(* ==== the leading spectral projector does not depend on the eigenbasis ======================= *)
+Section ConjProjector.
+  Variable F : rcfType.
+  Lemma conj_projector N (V V' Q D : 'M[F]_N) :
+    V' = V *m Q -> Q *m D = D *m Q -> Q *m Q^T = 1%:M ->
+    V *m D *m V^T = V' *m D *m V'^T.
+  Proof.
+    move=> -> C QQ; rewrite trmx_mul !mulmxA -[V *m Q *m D]mulmxA C !mulmxA.
+    by rewrite -[_ *m Q *m Q^T]mulmxA QQ mulmx1.
+  Qed.
+End ConjProjector.
+
+Section SpectralProjector.
+  Variable F : rcfType.
+  Variable N : nat.
+  Variables (M V V' : 'M[F]_N) (lam : 'cV[F]_N) (k : nat).
+  Hypothesis Msym : M^T = M.
+  Hypothesis VO : V^T *m V = 1%:M.
+  Hypothesis VO' : V'^T *m V' = 1%:M.
+  Hypothesis VE : M *m V = V *m diag_mx lam^T.
+  Hypothesis VE' : M *m V' = V' *m diag_mx lam^T.
+  (* eigenvalues decreasing, with a gap between position k-1 and position k *)
+  Hypothesis gap : forall i j : 'I_N, (i < k)%N -> (k <= j)%N -> lam j ord0 < lam i ord0.
+
+  Let Q := V^T *m V'.
+  Let D : 'M[F]_N := diag_mx (dk_mx F N k)^T.
+
+  Lemma sp_commute : diag_mx lam^T *m Q = Q *m diag_mx lam^T.
+  Proof.
+    rewrite /Q mulmxA -[diag_mx _ *m V^T]trmxK trmx_mul trmxK tr_diag_mx -VE.
+    by rewrite trmx_mul Msym -!mulmxA VE'.
+  Qed.
+
+  Lemma sp_block (i j : 'I_N) : ((i < k)%N != (j < k)%N) -> Q i j = 0.
+  Proof.
+    move=> Hij.
+    have /matrixP/(_ i j) := sp_commute; rewrite mul_diag_mx mul_mx_diag [LHS]mxE [RHS]mxE.
+    rewrite !(mxE _ (fun _ _ => lam _ _)) => E.
+    have {E} E : (lam i ord0 - lam j ord0) * Q i j = 0 by rewrite mulrBl E mulrC subrr.
+    move/eqP: E; rewrite mulf_eq0 => /orP [|/eqP //]; rewrite subr_eq0 => /eqP E.
+    case: (ltnP i k) Hij => ik; case: (ltnP j k) => jk //= _.
+    - by have := gap ik jk; rewrite E ltxx.
+    - by have := gap jk ik; rewrite E ltxx.
+  Qed.
+
+  Lemma sp_QD : Q *m D = D *m Q.
+  Proof.
+    apply/matrixP => i j; rewrite mul_mx_diag mul_diag_mx [LHS]mxE [RHS]mxE.
+    have dE (a : 'I_N) : (dk_mx F N k)^T ord0 a = if (a < k)%N then 1 else 0 by rewrite !mxE.
+    rewrite !dE.
+    case: (boolP ((i < k)%N == (j < k)%N)) => [/eqP ->|Hij]; first by rewrite mulrC.
+    by rewrite (sp_block Hij) mulr0 mul0r.
+  Qed.
+
+  (* V D_k V^T = V' D_k V'^T *)
+  Theorem spectral_projector_unique :
+    V *m D *m V^T = V' *m D *m V'^T.
+  Proof.
+    have VV : V *m V^T = 1%:M by apply: mulmx1C.
+    have VV' : V' *m V'^T = 1%:M by apply: mulmx1C.
+    have E : V' = V *m Q by rewrite /Q mulmxA VV mul1mx.
+    have QQ : Q *m Q^T = 1%:M.
+      by rewrite /Q trmx_mul trmxK -mulmxA [V' *m _]mulmxA VV' mul1mx.
+    exact: (conj_projector E sp_QD QQ).
+  Qed.
+
+  (* hence the importance score is the same for both decompositions *)
+  Corollary pi_oracle_independent :
+    eval_mx (pi_env_mx V (dk_mx F N k)) (pi_prog N)
+    = eval_mx (pi_env_mx V' (dk_mx F N k)) (pi_prog N).
+  Proof. exact: pi_basis_independent spectral_projector_unique. Qed.
+End SpectralProjector.
